@@ -133,8 +133,12 @@ func (e *zz06Env) paramsAt(h uint32) *zz06Params {
 // ID e.ownID; natively the ID is the real one (hash of the encoded header), so that headers read back
 // from the database and cached headers agree.
 func (e *zz06Env) header(h uint32) *blockchain.BlockHeader {
+	// (symbolically the placeholder ID carries the height in bytes 1..4, so that own blocks at different heights
+	// have different IDs, as real block IDs do)
+	id := append([]byte{}, e.ownID...)
+	id[1], id[2], id[3], id[4] = byte(h>>24), byte(h>>16), byte(h>>8), byte(h)
 	hd := &blockchain.BlockHeader{
-		ID:              e.ownID,
+		ID:              id,
 		Version:         2,
 		Height:          h,
 		Timestamp:       70,
